@@ -20,7 +20,7 @@ func selfExe() string {
 func init() {
 	register(&Check{
 		ID: "C18", Level: "exploration",
-		Rule: "REAL processes through the real TaskRunner / PgidExecutor / shell interpreter: every command is `pxcheck dumpenv`, which writes its complete environment (NUL separated) and its arguments (rendered template values) to stdout; the harness reads it back through FileOutputStore.Reader and compares, for 10 tracked names, value and presence with task-level ?: pipeline-level ?: process-level ?: unset; names are drawn so that every subset of the three levels defines some name, incl. process-only names that START WITH a job-level name or with TASK_NAME; values with spaces, both quote kinds, $X, backticks, '=', newlines, tabs, UTF-8 beyond BMP, 64 KiB, empty strings shadowing lower levels; a shell-level read (printf \"$N\") covers the interpreter's view; 1-3 pipelines x 2-5 jobs running concurrently with per-job template variables; a variable that only other jobs have must be a rendering error; a job passing the reserved identity variable must run nothing. A situation is the set of levels defining a name (T/P/X)",
+		Rule:        "REAL processes through the real TaskRunner / PgidExecutor / shell interpreter: every command is `pxcheck dumpenv`, which writes its complete environment (NUL separated) and its arguments (rendered template values) to stdout; the harness reads it back through FileOutputStore.Reader and compares, for 10 tracked names, value and presence with task-level ?: pipeline-level ?: process-level ?: unset; names are drawn so that every subset of the three levels defines some name, incl. process-only names that START WITH a job-level name or with TASK_NAME; values with spaces, both quote kinds, $X, backticks, '=', newlines, tabs, UTF-8 beyond BMP, 64 KiB, empty strings shadowing lower levels; a shell-level read (printf \"$N\") covers the interpreter's view; 1-3 pipelines x 2-5 jobs running concurrently with per-job template variables; a variable that only other jobs have must be a rendering error; a job passing the reserved identity variable must run nothing. A situation is the set of levels defining a name (T/P/X)",
 		Assumptions: []string{"template variables use a shell-safe alphabet (the renderer pastes text into shell source; quoting is not what the property is about)", "the process environment is global to the worker process: cases of one worker run one after the other"},
 		Cases:       func(t string) int { return tierN(t, 96, 2400) },
 		RunCase:     func(c *CaseCtx) *CaseResult { return simpleCase(c, drv.RunEnvCase(c.Seed, selfExe(), c.TmpDir), 24) },
@@ -28,7 +28,7 @@ func init() {
 	})
 	register(&Check{
 		ID: "C19", Level: "exploration",
-		Rule: "REAL processes: every command is `pxcheck emit <plan>`, a deterministic generator that writes PRNG bytes (binary or line-structured UTF-8 text) to stdout and stderr in interleaved chunks of 1 B - 256 KiB, every chunk tagged with (job tag from a job variable, task, command, stream, offset) so that foreign bytes are recognisable wherever they land; sizes 0, 1, 2, 100, 4095, 4096, 65535-65537, 200000 (thorough: 1 MiB, 1 MiB+1, 8 MiB), with and without trailing newline, 1-4 commands per task, 1-5 tasks per job (some with dependencies), 1-6 jobs at once over 1-2 pipelines with concurrency 1-3, commands that fail midway (output complete up to the failure; later commands only with allow_failure), a slow task that is canceled (stored output must be a prefix of the written stream). Task names: plain, spaces, dots, unicode, names that are prefixes of each other, names with '/', '..', '%'. Oracle: bytes from FileOutputStore.Reader == recomputed stream (length, SHA-256, first differing offset), GET /job/logs equal for UTF-8 payloads, 404 for a task the job does not have (also one that another job has), no log file outside the job's directory. A situation is (#commands, size class, lines?, canceled?, task-name class)",
+		Rule:        "REAL processes: every command is `pxcheck emit <plan>`, a deterministic generator that writes PRNG bytes (binary or line-structured UTF-8 text) to stdout and stderr in interleaved chunks of 1 B - 256 KiB, every chunk tagged with (job tag from a job variable, task, command, stream, offset) so that foreign bytes are recognisable wherever they land; sizes 0, 1, 2, 100, 4095, 4096, 65535-65537, 200000 (thorough: 1 MiB, 1 MiB+1, 8 MiB), with and without trailing newline, 1-4 commands per task, 1-5 tasks per job (some with dependencies), 1-6 jobs at once over 1-2 pipelines with concurrency 1-3, commands that fail midway (output complete up to the failure; later commands only with allow_failure), a slow task that is canceled (stored output must be a prefix of the written stream). Task names: plain, spaces, dots, unicode, names that are prefixes of each other, names with '/', '..', '%'. Oracle: bytes from FileOutputStore.Reader == recomputed stream (length, SHA-256, first differing offset), GET /job/logs equal for UTF-8 payloads, 404 for a task the job does not have (also one that another job has), no log file outside the job's directory. A situation is (#commands, size class, lines?, canceled?, task-name class)",
 		Assumptions: []string{"stdout and stderr are compared separately; relative order between the two streams is not part of the statement"},
 		Cases:       func(t string) int { return tierN(t, 64, 1600) },
 		RunCase: func(c *CaseCtx) *CaseResult {
@@ -43,7 +43,7 @@ func init() {
 	nShapes := len(drv.ProcShapes())
 	register(&Check{
 		ID: "C20", Level: "exploration",
-		Rule: "REAL process trees from a grammar (16 shapes: plain, nested bash -c depth 2 and 4, shell-level background jobs with and without wait, interpreter-level `cmd &`, pipelines of 3 stages at interpreter and shell level, subshells, children that trap '' INT, INT-ignoring parent with forked grandchild, a leaf that exits 100 ms after INT, two commands in sequence, and two shapes with an INT-ignoring process that is detached from the task's output) x cancel instant (tree fully up, immediately after the schedule request, after a random part of the start-up) x CancelJob / forced Shutdown x 0-2 other jobs with their own trees; kill timeout 300 ms. Every process carries a per-run, per-job marker in its environment; oracle = /proc scan (environ + state != Z) at the instant the job is first observed completed, and again after kill timeout + allowance; elapsed time is counted in heartbeats of the harness process (limit kill timeout + 5 s). Processes of uncanceled jobs must still be alive. A situation is (shape, cancel instant, via shutdown, #others, #processes up at cancel)",
+		Rule:        "REAL process trees from a grammar (16 shapes: plain, nested bash -c depth 2 and 4, shell-level background jobs with and without wait, interpreter-level `cmd &`, pipelines of 3 stages at interpreter and shell level, subshells, children that trap '' INT, INT-ignoring parent with forked grandchild, a leaf that exits 100 ms after INT, two commands in sequence, and two shapes with an INT-ignoring process that is detached from the task's output) x cancel instant (tree fully up, immediately after the schedule request, after a random part of the start-up) x CancelJob / forced Shutdown x 0-2 other jobs with their own trees; kill timeout 300 ms. Every process carries a per-run, per-job marker in its environment; oracle = /proc scan (environ + state != Z) at the instant the job is first observed completed, and again after kill timeout + allowance; elapsed time is counted in heartbeats of the harness process (limit kill timeout + 5 s). Processes of uncanceled jobs must still be alive. A situation is (shape, cancel instant, via shutdown, #others, #processes up at cancel)",
 		Assumptions: []string{"processes that leave the process group (setsid) are excluded by the statement", "the timed bound uses a 5 s allowance measured in heartbeats so that a stalled machine stalls the clock"},
 		Cases:       func(t string) int { return tierN(t, nShapes*3, nShapes*3*2*3*8) },
 		RunCase: func(c *CaseCtx) *CaseResult {
